@@ -72,6 +72,8 @@ type Case struct {
 	// back to back)
 	Interleave bool `json:",omitempty"`
 	Jar        bool `json:",omitempty"` // cookie source: the client's cookie jar already holds cookies with names of the struct
+	ViaBody    bool `json:",omitempty"` // form, multipart: the handler binds with Body() (binder chosen by the content type) instead of Form()
+	NoPreParse bool `json:",omitempty"` // form, multipart: server with DisablePreParseMultipartForm
 }
 
 // interleaved calls add(key, value) for the elements of the slice fields in round-robin order
@@ -101,34 +103,41 @@ func interleaved(v V, add func(k, val string)) {
 }
 
 type server struct {
-	ln   *fasthttputil.InmemoryListener
-	cl   *client.Client
-	mu   sync.Mutex
-	src  string
-	got  V
-	berr error
+	ln      *fasthttputil.InmemoryListener
+	cl      *client.Client
+	mu      sync.Mutex
+	src     string
+	viaBody bool
+	got     V
+	berr    error
 }
 
 var (
 	serversMu sync.Mutex
-	servers   = map[bool]*server{}
+	servers   = map[[2]bool]*server{}
 )
 
-func getServer(split bool) *server {
+// getServer: one server per configuration (noPre: Config.DisablePreParseMultipartForm - the multipart form is parsed
+// when the handler asks for it, not while the request is read)
+func getServer(split, noPre bool) *server {
 	serversMu.Lock()
 	defer serversMu.Unlock()
-	if s := servers[split]; s != nil {
+	if s := servers[[2]bool{split, noPre}]; s != nil {
 		return s
 	}
 	s := &server{ln: fasthttputil.NewInmemoryListener()}
-	app := fiber.New(fiber.Config{EnableSplittingOnParsers: split})
+	app := fiber.New(fiber.Config{EnableSplittingOnParsers: split, DisablePreParseMultipartForm: noPre})
 	h := func(c fiber.Ctx) error {
 		s.got = V{}
 		switch s.src {
 		case "query":
 			s.berr = c.Bind().Query(&s.got)
 		case "form", "multipart":
-			s.berr = c.Bind().Form(&s.got)
+			if s.viaBody {
+				s.berr = c.Bind().Body(&s.got) // the binder is chosen by the content type
+			} else {
+				s.berr = c.Bind().Form(&s.got)
+			}
 		case "header":
 			s.berr = c.Bind().Header(&s.got)
 		case "cookie":
@@ -144,7 +153,7 @@ func getServer(split bool) *server {
 	app.Post("/u/:s/:i/:b", h)
 	go func() { _ = app.Listener(s.ln, fiber.ListenConfig{DisableStartupMessage: true}) }()
 	s.cl = client.New().SetDial(func(string) (net.Conn, error) { return s.ln.Dial() }).SetTimeout(20 * time.Second)
-	servers[split] = s
+	servers[[2]bool{split, noPre}] = s
 	return s
 }
 
@@ -176,10 +185,11 @@ func needsEscaping(src, s string) bool {
 }
 
 func check(c Case) vk.Verdict {
-	s := getServer(c.Split)
+	s := getServer(c.Split, c.NoPreParse)
 	s.mu.Lock()
 	defer s.mu.Unlock()
 	s.src = c.Source
+	s.viaBody = c.ViaBody
 	v := c.Val
 	r := s.cl.R()
 	url := "http://example.com/"
@@ -304,6 +314,10 @@ func genCase(t *rapid.T) Case {
 		c.Interleave = rapid.Bool().Draw(t, "interleave")
 	}
 	c.Jar = c.Source == "cookie" && rapid.Bool().Draw(t, "jar")
+	if c.Source == "form" || c.Source == "multipart" {
+		c.ViaBody = rapid.Bool().Draw(t, "viabody")
+		c.NoPreParse = rapid.Bool().Draw(t, "nopreparse")
+	}
 	sg := strGen(c.Source, c.Split)
 	ext := func(lo, hi int64) int64 {
 		return rapid.OneOf(rapid.Int64Range(lo, hi), rapid.SampledFrom([]int64{lo, hi, 0, -1, 1})).Filter(func(x int64) bool { return x >= lo && x <= hi }).Draw(t, "int")
